@@ -1,6 +1,7 @@
 package kit
 
 import (
+	"encoding/binary"
 	"bufio"
 	"bytes"
 	"encoding/json"
@@ -93,6 +94,9 @@ func Worker(ck *Check, tier string, seed uint64, worker, of int, budget time.Dur
 			break
 		}
 		keep := len(res.Samples) < samplesWanted
+		// marker for the parent: should the process die inside this run (a panic on a goroutine
+		// of the code under test cannot be recovered), it knows which run it was
+		fmt.Fprintf(os.Stderr, "RUN-START %d\n", i)
 		r, herr := OneRun(ck, tier, seed, i, keep)
 		if herr != "" {
 			if len(res.Harness) < 3 {
@@ -183,8 +187,9 @@ func RunPart(self string, ck *Check, tier string, seed uint64, budget time.Durat
 	}
 	start := time.Now()
 	type out struct {
-		res *WorkerResult
-		err error
+		res   *WorkerResult
+		err   error
+		crash *CrashInfo
 	}
 	outs := make([]out, workers)
 	var wg sync.WaitGroup
@@ -217,6 +222,11 @@ func RunPart(self string, ck *Check, tier string, seed uint64, budget time.Durat
 			select {
 			case err := <-done:
 				if err != nil {
+					if ci := ParseCrash(stderr.String()); ci != nil {
+						// the code under test killed the process from one of its own goroutines
+						outs[w].crash = ci
+						return
+					}
 					outs[w].err = fmt.Errorf("worker %d: %v\nstderr tail:\n%s", w, err, tail(stderr.String(), 60))
 					return
 				}
@@ -239,9 +249,20 @@ func RunPart(self string, ck *Check, tier string, seed uint64, budget time.Durat
 	pr := &PartResult{Check: ck, Stats: map[string]int64{}, Workers: workers}
 	fps := map[uint64]struct{}{}
 	found := map[string]*Found{}
+	crashes := map[string]*CrashInfo{}
+	crashCount := map[string]uint64{}
 	for w := range outs {
 		if outs[w].err != nil {
 			return nil, outs[w].err
+		}
+		if ci := outs[w].crash; ci != nil {
+			// what the dead worker had counted is lost; the crash itself is the result
+			pr.Stats["worker-process-crashes"]++
+			crashCount[ci.Sig]++
+			if o := crashes[ci.Sig]; o == nil || ci.Index < o.Index {
+				crashes[ci.Sig] = ci
+			}
+			continue
 		}
 		r := outs[w].res
 		pr.Runs += r.Runs
@@ -271,6 +292,20 @@ func RunPart(self string, ck *Check, tier string, seed uint64, budget time.Durat
 		pr.Harness = append(pr.Harness, r.Harness...)
 	}
 	pr.Distinct = len(fps)
+	for sig, ci := range crashes {
+		// run the crashing run once more, alone, with a choice journal, to obtain its choice log
+		choices, ci2, perr := ProbeCrash(self, ck, tier, seed, ci.Index)
+		if perr != nil || ci2 == nil || ci2.Sig != sig {
+			got := "no crash"
+			if ci2 != nil {
+				got = ci2.Sig
+			}
+			return nil, fmt.Errorf("worker crashed in run %d (%s: %s) but the crash did not repeat when the run was executed alone (got %s, err %v)\nstack:\n%s", ci.Index, sig, ci.Msg, got, perr, strings.Join(ci.Stack, "\n"))
+		}
+		f := Found{Part: ck.Name, Index: ci.Index, Class: CrashClassPrefix + sig, Choices: choices, Count: crashCount[sig],
+			Detail: fmt.Sprintf("the code under test killed the process: %s | %s", ci.Msg, strings.Join(ci.Stack, " < "))}
+		found[f.Class] = &f
+	}
 	var classes []string
 	for c := range found {
 		classes = append(classes, c)
@@ -419,6 +454,12 @@ func VerifyReplayFresh(self, path string) (reproduced bool, sameDigest bool, out
 	cmd.Env = append(os.Environ(), "GOMAXPROCS=4")
 	out, _ := cmd.CombinedOutput()
 	output = string(out)
+	if rf, err := ReadReplay(path); err == nil && strings.HasPrefix(rf.Violation.Class, CrashClassPrefix) {
+		// a process crash reproduces when the replaying process dies the same death
+		ci := ParseCrash(output)
+		ok := ci != nil && CrashClassPrefix+ci.Sig == rf.Violation.Class
+		return ok, ok, output
+	}
 	sc := bufio.NewScanner(bytes.NewReader(out))
 	for sc.Scan() {
 		ln := sc.Text()
@@ -442,4 +483,132 @@ func NumWorkers() int {
 		n = 16
 	}
 	return n
+}
+
+// ---- process crashes of the code under test ----
+
+// CrashClassPrefix starts the violation class of a run in which the code under test killed
+// the whole process (an unrecovered panic on a goroutine it started itself).
+const CrashClassPrefix = "process-crash:"
+
+const repoModule = "github.com/youchainhq/go-youchain/"
+
+// CrashInfo describes a worker process that died of a Go panic on a goroutine of the code
+// under test.
+type CrashInfo struct {
+	Index uint64   // the run that was executing (last RUN-START marker)
+	Sig   string   // innermost function of the code under test on the panicking goroutine
+	Msg   string   // the panic message
+	Stack []string // the code-under-test frames of the panicking goroutine, innermost first
+}
+
+// ParseCrash recognises, in a dead worker's stderr, a Go panic whose goroutine consists of
+// frames of the code under test only (no simulator frame: a goroutine the code started
+// itself, which the simulator cannot wrap in a recover). Anything else is not a crash of the
+// code under test and stays a harness error.
+func ParseCrash(stderr string) *CrashInfo {
+	lines := strings.Split(stderr, "\n")
+	ci := &CrashInfo{}
+	haveIdx := false
+	pan := -1
+	for i, ln := range lines {
+		if strings.HasPrefix(ln, "RUN-START ") {
+			if n, err := strconv.ParseUint(strings.TrimSpace(strings.TrimPrefix(ln, "RUN-START ")), 10, 64); err == nil {
+				ci.Index, haveIdx = n, true
+			}
+		}
+		if pan < 0 && (strings.HasPrefix(ln, "panic: ") || strings.HasPrefix(ln, "fatal error: ")) {
+			pan = i
+		}
+	}
+	if pan < 0 {
+		return nil
+	}
+	_ = haveIdx
+	ci.Msg = strings.TrimSpace(lines[pan])
+	// the first goroutine block after the panic line is the panicking goroutine
+	g := -1
+	for i := pan + 1; i < len(lines); i++ {
+		if strings.HasPrefix(lines[i], "goroutine ") {
+			g = i
+			break
+		}
+	}
+	if g < 0 {
+		return nil
+	}
+	for i := g + 1; i < len(lines); i++ {
+		ln := lines[i]
+		if strings.TrimSpace(ln) == "" {
+			break
+		}
+		if strings.HasPrefix(ln, "\t") {
+			continue // file:line of the frame above
+		}
+		fn := ln
+		if strings.HasPrefix(fn, "created by ") {
+			fn = strings.TrimPrefix(fn, "created by ")
+			if j := strings.Index(fn, " in goroutine"); j >= 0 {
+				fn = fn[:j]
+			}
+		} else if j := strings.LastIndex(fn, "("); j > 0 {
+			fn = fn[:j]
+		}
+		if strings.HasPrefix(fn, "verifsim/") || strings.Contains(fn, "/verifsim/") || strings.HasPrefix(fn, "testing.") || strings.HasPrefix(fn, "internal/synctest") {
+			return nil // a goroutine the simulator owns (or the bubble's root): not a crash of the code under test
+		}
+		if strings.HasPrefix(fn, repoModule) {
+			ci.Stack = append(ci.Stack, strings.TrimPrefix(fn, repoModule))
+		}
+	}
+	if len(ci.Stack) == 0 {
+		return nil
+	}
+	ci.Sig = ci.Stack[0]
+	if len(ci.Stack) > 6 {
+		ci.Stack = ci.Stack[:6]
+	}
+	return ci
+}
+
+// ProbeCrash executes one run alone in a fresh process with a choice journal and returns the
+// choices it made before it died, together with how it died.
+func ProbeCrash(self string, ck *Check, tier string, seed, index uint64) ([]uint32, *CrashInfo, error) {
+	jf, err := os.CreateTemp("", "vcheck-journal-*")
+	if err != nil {
+		return nil, nil, err
+	}
+	jf.Close()
+	defer os.Remove(jf.Name())
+	cmd := exec.Command(self, "crashprobe", "-prop", ck.Prop, "-part", ck.Name, "-tier", tier,
+		"-seed", strconv.FormatUint(seed, 10), "-index", strconv.FormatUint(index, 10), "-journal", jf.Name())
+	cmd.Env = append(os.Environ(), "GOMAXPROCS=2")
+	out, _ := cmd.CombinedOutput()
+	b, err := os.ReadFile(jf.Name())
+	if err != nil {
+		return nil, nil, err
+	}
+	choices := make([]uint32, 0, len(b)/4)
+	for i := 0; i+4 <= len(b); i += 4 {
+		choices = append(choices, binary.LittleEndian.Uint32(b[i:]))
+	}
+	return choices, ParseCrash(string(out)), nil
+}
+
+// CrashesFresh reports whether replaying the choice log in a fresh process dies with the
+// given crash signature (the failure test used to minimise a process crash).
+func CrashesFresh(self string, ck *Check, tier string, seed, index uint64, choices []uint32, sig string) bool {
+	dir, err := os.MkdirTemp("", "vcheck-crashshrink-*")
+	if err != nil {
+		return false
+	}
+	defer os.RemoveAll(dir)
+	rf := &ReplayFile{Property: ck.Prop, Part: ck.Name, Tier: tier, Seed: seed, Index: index, Choices: choices,
+		Violation: Violation{Class: CrashClassPrefix + sig}}
+	path, err := WriteReplay(dir, rf)
+	if err != nil {
+		return false
+	}
+	ok, _, _ := VerifyReplayFresh(self, path)
+	return ok
 }
